@@ -98,6 +98,12 @@ def boot(machine_name, config_file="config.yaml", fake_game=False, start_active=
     if start_active is not None:
         t.machine_config_patches = dict(getattr(t, "machine_config_patches", {}))
     t.setUp()
+    # a device whose initialisation failed must not go unnoticed (seen: a second boot in one process swallowed a light config error)
+    if getattr(t, "startup_error", None) or t.machine is None:
+        raise AssertionError("machine %s did not boot: %r" % (machine_name, getattr(t, "startup_error", None)))
+    for light in t.machine.lights.values():
+        if not light.hw_drivers:
+            raise AssertionError("light %s has no hardware drivers: its initialisation failed" % light.name)
     return t
 
 
